@@ -174,4 +174,7 @@ def digitsOf (s : List Char) : List Char := s.filter (· ≠ '-')
 
 end Spec
 
+/-- values of the hex digits of a string, hyphens dropped -/
+def digitVals (s : List Char) : List Nat := (Spec.digitsOf s).filterMap hexVal
+
 end Uuid
